@@ -14,7 +14,8 @@ TInit == HInit /\ t \in 1 .. NT /\ l = 1
 
 TStep == /\ l <= Len(Traces[t])
          /\ l' = l + 1 /\ t' = t
-         /\ \/ Ev.ev = "started" /\ Started(Ev.fast)
+         /\ \/ Ev.ev = "posted" /\ Posted
+            \/ Ev.ev = "started" /\ Started(Ev.fast)
             \/ Ev.ev = "stopreq" /\ StopReq(Ev.active, Ev.st)
             \/ Ev.ev = "final" /\ Final(Ev.st)
             \/ Ev.ev = "oncleanup" /\ OnCleanup(Ev.kind, Ev.reason)
